@@ -20,6 +20,19 @@ WATCHDOG_S = 3000
 WEIRD = ("", " ", "x", "rho", "v_L0", "L0", "a+b", "q_o", "名前", "N1", "d", "w", "0", "None", "L 1", "x" * 40)
 
 
+class _FixedK:
+    """Stands in for the call-form generator: always the same number of positional arguments."""
+
+    def __init__(self, k):
+        self.k = k
+
+    def random(self):
+        return 0.0
+
+    def randint(self, a, b):
+        return max(a, min(b, self.k))
+
+
 def step_next(M, desc, vals, pars, kind, ops=None, node_names=None, symvals=None):
     NE, CE = drive.engines(M)
     built = D.build(M, desc, ops, node_names=node_names)
@@ -177,6 +190,47 @@ def one(M, rec, rng, g, desc, kind, symvals):
             same(rec, "turn rates re-assigned in place on an already stepped network vs a fresh network", kind, desc, r_new, r_old, ctx)
         except Exception as e:
             rec.violation(f"{PROP}:re-assigned turn rates:{kind}: cannot be stepped ({type(e).__name__})", dict(ctx, exception=repr(e)[:300]))
+    # (f) the same network written with other call forms: every constructor / construction call with its
+    #     arguments by keyword vs positionally in the documented order
+    for form, frng in (("all arguments by keyword", _FixedK(0)), ("all arguments positional (documented order)", _FixedK(99))):
+        saved = D.FORMS["rng"]
+        D.FORMS["rng"] = frng
+        try:
+            r, _b = step_next(M, desc, vals, pars, kind, None, None, symvals)
+            rec.count("relation_call_form")
+            same(rec, "call form: " + form, kind, desc, base, r, ctx)
+        except Exception as e:
+            rec.violation(f"{PROP}:call form:{kind}: the network written with {form} cannot be built or stepped ({type(e).__name__})",
+                          dict(ctx, exception=repr(e)[:300]))
+        finally:
+            D.FORMS["rng"] = saved
+    # (e) a deep copy / a pickle round-trip of the (already stepped) network is a network with the same
+    #     elements connected in the same way
+    if kind == "numpy":
+        import pickle
+
+        how = rng.choice(("deepcopy", "pickle"))
+        try:
+            n2 = copy.deepcopy(b0.net) if how == "deepcopy" else pickle.loads(pickle.dumps(b0.net))
+            pairs = list(zip(b0.net.elements, n2.elements))
+            ic0 = drive.np_init(b0, vals, "vec1")
+            ic2 = {c_: ic0[o_] for o_, c_ in pairs if o_ in ic0}
+            NE, CE = drive.engines(M)
+            n2.step(init_conditions=ic2, engine=NE(), **drive.step_pars(pars))
+            b0.net.step(init_conditions=ic0, engine=NE(), **drive.step_pars(pars))
+            rev = {id(v): k_ for k_, v in b0.elements.items()}
+            r_copy = {}
+            lay = D.var_layout(desc)
+            for o_, c_ in pairs:
+                eid = rev[id(o_)]
+                if lay[eid]["states"]:
+                    r_copy[eid] = {nm: ([float(t) for t in np.asarray(c_.next_states[nm], dtype=float).ravel()] if nm in ("rho", "v")
+                                        else float(np.asarray(c_.next_states[nm], dtype=float).ravel()[0])) for nm, _n in lay[eid]["states"]}
+            rec.count("relation_copy")
+            rec.seen("copy_forms", how)
+            same(rec, f"{how} of an already stepped network vs the network itself", kind, desc, drive.read_next(b0), r_copy, ctx)
+        except Exception as e:
+            rec.violation(f"{PROP}:{how}:{kind}: the copied network cannot be stepped ({type(e).__name__})", dict(ctx, exception=repr(e)[:300]))
     # (d) share = beta / sum(beta), measured from inferred inflows
     T = pars["T"]
     for n in desc["nodes"]:
